@@ -4,13 +4,4 @@ go 1.25.9
 
 require github.com/gnolang/gno v0.0.0
 
-require (
-	github.com/btcsuite/btcd/btcec/v2 v2.5.0 // indirect
-	github.com/btcsuite/btcd/btcutil v1.2.0 // indirect
-	github.com/decred/dcrd/dcrec/secp256k1/v4 v4.4.1 // indirect
-	github.com/valyala/bytebufferpool v1.0.0 // indirect
-	golang.org/x/crypto v0.53.0 // indirect
-	google.golang.org/protobuf v1.36.11 // indirect
-)
-
 replace github.com/gnolang/gno => /repo
